@@ -1,9 +1,16 @@
 import DaeVerif.C13.Batch
 namespace DaeVerif.C13.Batch
 
-/-- buffers owned by slots are allocated ones, and never one that a task owns -/
+/-- the buffers the slots own -/
+def owned (l : List (Option Nat)) : List Nat := l.filterMap id
+
+theorem mem_owned {l : List (Option Nat)} {b : Nat} : b ∈ owned l ↔ some b ∈ l := by
+  unfold owned; simp
+
+/-- buffers owned by slots are allocated ones, pairwise different, and never one that a task owns -/
 def Inv (s : St) : Prop :=
-  (∀ b, some b ∈ s.slots → b < s.nbuf) ∧ (∀ b, b ∈ s.taken → b < s.nbuf ∧ some b ∉ s.slots)
+  (∀ b, some b ∈ s.slots → b < s.nbuf) ∧ (owned s.slots).Nodup ∧
+  (∀ b, b ∈ s.taken → b < s.nbuf ∧ some b ∉ s.slots)
 
 theorem fill_spec : ∀ (l : List (Option Nat)) (n : Nat),
     n ≤ (fill l n).2 ∧ (∀ b, some b ∈ (fill l n).1 → some b ∈ l ∨ (n ≤ b ∧ b < (fill l n).2)) := by
@@ -36,6 +43,41 @@ theorem fill_spec : ∀ (l : List (Option Nat)) (n : Nat),
         | inl h => left; exact List.mem_cons_of_mem _ h
         | inr h => right; omega
 
+theorem fill_nodup : ∀ (l : List (Option Nat)) (n : Nat), (∀ b, some b ∈ l → b < n) → (owned l).Nodup →
+    (owned (fill l n).1).Nodup := by
+  intro l
+  induction l with
+  | nil => intro n _ _; simp [fill, owned]
+  | cons a l ih =>
+    intro n hlt hnd
+    cases a with
+    | some b =>
+      simp only [fill]
+      have hnd' : (owned l).Nodup ∧ b ∉ owned l := by
+        simp only [owned, List.filterMap_cons, id] at hnd
+        exact ⟨(List.nodup_cons.mp hnd).2, (List.nodup_cons.mp hnd).1⟩
+      have ih' := ih n (fun x hx => hlt x (List.mem_cons_of_mem _ hx)) hnd'.1
+      show (owned (some b :: (fill l n).1)).Nodup
+      simp only [owned, List.filterMap_cons, id]
+      refine List.nodup_cons.mpr ⟨?_, ih'⟩
+      intro hin
+      have hin' : some b ∈ (fill l n).1 := mem_owned.mp hin
+      cases (fill_spec l n).2 b hin' with
+      | inl e => exact hnd'.2 (mem_owned.mpr e)
+      | inr e => have := hlt b List.mem_cons_self; omega
+    | none =>
+      simp only [fill]
+      have hnd' : (owned l).Nodup := by simpa [owned] using hnd
+      have ih' := ih (n + 1) (fun x hx => Nat.lt_succ_of_lt (hlt x (List.mem_cons_of_mem _ hx))) hnd'
+      show (owned (some n :: (fill l (n + 1)).1)).Nodup
+      simp only [owned, List.filterMap_cons, id]
+      refine List.nodup_cons.mpr ⟨?_, ih'⟩
+      intro hin
+      have hin' : some n ∈ (fill l (n + 1)).1 := mem_owned.mp hin
+      cases (fill_spec l (n + 1)).2 n hin' with
+      | inl e => have := hlt n (List.mem_cons_of_mem _ e); omega
+      | inr e => omega
+
 theorem store_other (bufs : Nat → List Nat) : ∀ (slots : List (Option Nat)) (ps : List (List Nat)) (x : Nat),
     some x ∉ slots → store bufs slots ps x = bufs x := by
   intro slots
@@ -55,14 +97,20 @@ theorem store_other (bufs : Nat → List Nat) : ∀ (slots : List (Option Nat)) 
         exact ih ps x (fun h => hx (List.mem_cons_of_mem _ h))
 
 theorem inv_init (n : Nat) : Inv (init n) := by
-  constructor
+  refine ⟨?_, ?_, ?_⟩
   · intro b hb; simp [init] at hb
+  · have : owned (List.replicate n (none : Option Nat)) = [] := by
+      unfold owned; induction n with
+      | zero => rfl
+      | succ n ih => simp [List.replicate_succ, ih]
+    show (owned (List.replicate n none)).Nodup
+    rw [this]; exact List.nodup_nil
   · intro b hb; simp [init] at hb
 
 theorem inv_readBatch {s : St} (h : Inv s) (pkts : List (List Nat)) : Inv (readBatch s pkts) := by
-  obtain ⟨h1, h2⟩ := h
+  obtain ⟨h1, hnd, h2⟩ := h
   obtain ⟨f1, f2⟩ := fill_spec s.slots s.nbuf
-  constructor
+  refine ⟨?_, fill_nodup s.slots s.nbuf h1 hnd, ?_⟩
   · intro b hb
     cases f2 b hb with
     | inl e => exact Nat.lt_of_lt_of_le (h1 b e) f1
@@ -79,22 +127,85 @@ theorem inv_readBatch {s : St} (h : Inv s) (pkts : List (List Nat)) : Inv (readB
 theorem readBatch_keeps_taken {s : St} (h : Inv s) (pkts : List (List Nat)) (b : Nat) (hb : b ∈ s.taken) :
     (readBatch s pkts).bufs b = s.bufs b := by
   have hi := inv_readBatch h pkts
-  exact store_other _ _ _ _ ((hi.2 b hb).2)
+  exact store_other _ _ _ _ ((hi.2.2 b hb).2)
+
+theorem owned_set_none : ∀ (l : List (Option Nat)) (i b : Nat), l[i]? = some (some b) → (owned l).Nodup →
+    (∀ x, some x ∈ l.set i none → some x ∈ l ∧ x ≠ b) ∧ (owned (l.set i none)).Nodup := by
+  intro l
+  induction l with
+  | nil => intro i b h; simp at h
+  | cons a l ih =>
+    intro i b h hnd
+    cases i with
+    | zero =>
+      simp at h; subst h
+      simp only [List.set_cons_zero]
+      have hnd' : (owned l).Nodup ∧ b ∉ owned l := by
+        simp only [owned, List.filterMap_cons, id] at hnd
+        exact ⟨(List.nodup_cons.mp hnd).2, (List.nodup_cons.mp hnd).1⟩
+      refine ⟨?_, by simpa [owned] using hnd'.1⟩
+      intro x hx
+      simp only [List.mem_cons] at hx
+      cases hx with
+      | inl e => cases e
+      | inr e => exact ⟨List.mem_cons_of_mem _ e, fun hxb => hnd'.2 (mem_owned.mpr (hxb ▸ e))⟩
+    | succ n =>
+      simp at h
+      simp only [List.set_cons_succ]
+      cases a with
+      | none =>
+        have hnd' : (owned l).Nodup := by simpa [owned] using hnd
+        obtain ⟨i1, i2⟩ := ih n b h hnd'
+        refine ⟨?_, by simpa [owned] using i2⟩
+        intro x hx
+        simp only [List.mem_cons] at hx
+        cases hx with
+        | inl e => cases e
+        | inr e => exact ⟨List.mem_cons_of_mem _ (i1 x e).1, (i1 x e).2⟩
+      | some c =>
+        have hnd' : (owned l).Nodup ∧ c ∉ owned l := by
+          simp only [owned, List.filterMap_cons, id] at hnd
+          exact ⟨(List.nodup_cons.mp hnd).2, (List.nodup_cons.mp hnd).1⟩
+        obtain ⟨i1, i2⟩ := ih n b h hnd'.1
+        have hbl : some b ∈ l := List.mem_of_getElem? h
+        refine ⟨?_, ?_⟩
+        · intro x hx
+          simp only [List.mem_cons] at hx
+          cases hx with
+          | inl e =>
+            injection e with e; subst e
+            exact ⟨List.mem_cons_self, fun hxb => hnd'.2 (mem_owned.mpr (hxb ▸ hbl))⟩
+          | inr e => exact ⟨List.mem_cons_of_mem _ (i1 x e).1, (i1 x e).2⟩
+        · show (owned (some c :: l.set n none)).Nodup
+          simp only [owned, List.filterMap_cons, id]
+          refine List.nodup_cons.mpr ⟨?_, i2⟩
+          intro hin
+          exact hnd'.2 (mem_owned.mpr (i1 c (mem_owned.mp hin)).1)
 
 theorem inv_take {s : St} (h : Inv s) (i : Nat) : Inv (take s i).1 := by
-  obtain ⟨h1, h2⟩ := h
+  obtain ⟨h1, hnd, h2⟩ := h
   unfold take
   split
   · rename_i b hb
-    constructor
-    · intro x hx
-      exact h1 x (List.mem_of_mem_set hx |> fun m => by
-        cases m with
-        | inl e => exact e
-        | inr e => cases e)
-    · intro x hx
-      simp only [List.mem_cons] at hx
-      sorry
-  · exact ⟨h1, h2⟩
+    obtain ⟨m1, m2⟩ := owned_set_none s.slots i b hb hnd
+    refine ⟨fun x hx => h1 x (m1 x hx).1, m2, ?_⟩
+    intro x hx
+    simp only [List.mem_cons] at hx
+    cases hx with
+    | inl e =>
+      subst e
+      exact ⟨h1 x (List.mem_of_getElem? hb), fun hin => (m1 x hin).2 rfl⟩
+    | inr e => exact ⟨(h2 x e).1, fun hin => (h2 x e).2 (m1 x hin).1⟩
+  · exact ⟨h1, hnd, h2⟩
+
+theorem run_inv : ∀ (ops : List Op) (s : St), Inv s → Inv (run s ops) := by
+  intro ops
+  induction ops with
+  | nil => intro s h; exact h
+  | cons op ops ih =>
+    intro s h
+    cases op with
+    | read pkts => exact ih _ (inv_readBatch h pkts)
+    | take i => exact ih _ (inv_take h i)
 
 end DaeVerif.C13.Batch
